@@ -6,6 +6,7 @@ import functools
 import itertools
 import math
 import numbers
+import pickle
 import warnings
 from abc import abstractmethod
 from collections import OrderedDict
@@ -49,6 +50,7 @@ from linear_operator.utils.getitem import (
 )
 from linear_operator.utils.lanczos import _postprocess_lanczos_root_inv_decomp
 from linear_operator.utils.memoize import (
+    _is_in_cache,
     _is_in_cache_ignore_all_args,
     _is_in_cache_ignore_args,
     add_to_cache,
@@ -550,7 +552,8 @@ class LinearOperator(object):
         """
         if _is_in_cache_ignore_all_args(self, "symeig"):
             return "symeig"
-        if _is_in_cache_ignore_all_args(self, "diagonalization"):
+        # self.diagonalization() (no arguments) is what the "diagonalization" method reads
+        if _is_in_cache(self, "diagonalization", kwargs_pkl=pickle.dumps({})):
             return "diagonalization"
         if _is_in_cache_ignore_all_args(self, "lanczos"):
             return "lanczos"
